@@ -20,9 +20,13 @@ use std::sync::Arc;
 pub struct Step {
     pub lock: usize,
     /// scheduling points inside the critical section (before the write)
-    pub inside: u8,
+    pub inside: u16,
     /// scheduling points after the call
     pub outside: u8,
+    /// while inside, also apply a closure to this other lock (always one with a higher
+    /// index: consistent ordering, never re-entrant)
+    #[serde(default)]
+    pub nested: Option<usize>,
 }
 
 #[derive(Clone, Debug, Serialize, Deserialize, PartialEq)]
@@ -51,19 +55,34 @@ pub fn gen(rng: &mut Rng) -> LockScenario {
         1 | 2 => 4 + rng.usize(4),
         _ => 2 + rng.usize(2),
     };
-    let n_locks = 1 + rng.usize(3);
+    let n_locks = match rng.below(12) {
+        0 => 60 + rng.usize(140), // a table of locks (address-dependent behaviour)
+        _ => 1 + rng.usize(3),
+    };
     let mut budget = 120usize; // at most 128 distinct bits
     let threads = (0..n_threads)
         .map(|_| {
-            let n = (1 + rng.usize(6)).min(budget.max(1));
-            budget = budget.saturating_sub(n);
+            let n = (1 + rng.usize(6)).min((budget / 2).max(1));
+            budget = budget.saturating_sub(2 * n);
             (0..n)
-                .map(|_| Step {
-                    lock: rng.usize(n_locks),
-                    // closures of varying duration: mostly short, now and then long enough to
-                    // exhaust a waiter's patience (spin budgets, back-off loops)
-                    inside: if rng.chance(1, 12) { 150 + rng.below(100) as u8 } else { rng.below(4) as u8 },
-                    outside: rng.below(3) as u8,
+                .map(|_| {
+                    let lock = rng.usize(n_locks);
+                    Step {
+                        lock,
+                        // closures of varying duration: mostly short, now and then long enough to
+                        // exhaust a waiter's patience (spin budgets, yield loops, back-off)
+                        inside: match rng.below(48) {
+                            0 => 5500 + rng.below(1500) as u16,
+                            1..=4 => 150 + rng.below(100) as u16,
+                            _ => rng.below(4) as u16,
+                        },
+                        outside: rng.below(3) as u8,
+                        nested: if lock + 1 < n_locks && rng.chance(1, 6) {
+                            Some(lock + 1 + rng.usize(n_locks - lock - 1))
+                        } else {
+                            None
+                        },
+                    }
                 })
                 .collect()
         })
@@ -82,7 +101,7 @@ pub fn gen(rng: &mut Rng) -> LockScenario {
 
 pub fn evaluate(sc: &LockScenario) -> (Option<Finding>, Option<ExecInfo>) {
     let total: usize = sc.threads.iter().map(|t| t.len()).sum();
-    if total > 128 {
+    if 2 * total > 128 {
         return (Some(finding("harness-error", "more closures than bits")), None);
     }
     let sc2 = sc.clone();
@@ -91,26 +110,45 @@ pub fn evaluate(sc: &LockScenario) -> (Option<Finding>, Option<ExecInfo>) {
         let mut bit = 0u32;
         let mut handles = Vec::new();
         for (ti, steps) in sc2.threads.iter().enumerate() {
-            let my: Vec<(Step, u128, u64)> = steps
+            let my: Vec<(Step, u128, u128, u64)> = steps
                 .iter()
                 .map(|s| {
                     let d = 1u128 << bit;
-                    bit += 1;
-                    (s.clone(), d, ((ti as u64) << 32) | bit as u64)
+                    let d2 = 1u128 << (bit + 1);
+                    bit += 2;
+                    (s.clone(), d, d2, ((ti as u64) << 32) | bit as u64)
                 })
                 .collect();
             let locks = locks.clone();
             handles.push(shuttle::thread::spawn(move || {
                 let mut obs = Vec::new();
-                for (s, d, token) in my {
+                for (s, d, d2, token) in my {
+                    let mut inner_obs = None;
                     let (read, returned_token) = locks[s.lock].apply(|v| {
                         let r = *v;
                         for _ in 0..s.inside {
                             sp();
                         }
+                        if let Some(j) = s.nested {
+                            // a different lock, always a higher index: legal, non-re-entrant nesting
+                            let (r2, t2) = locks[j].apply(|w| {
+                                let r2 = *w;
+                                sp();
+                                *w = r2 | d2;
+                                (r2, token ^ 0xABCD)
+                            });
+                            inner_obs = Some(Obs {
+                                lock: j,
+                                read: r2,
+                                delta: d2,
+                                token: token ^ 0xABCD,
+                                returned_token: t2,
+                            });
+                        }
                         *v = r | d;
                         (r, token)
                     });
+                    obs.extend(inner_obs);
                     obs.push(Obs {
                         lock: s.lock,
                         read,
@@ -211,7 +249,7 @@ pub fn run_case(_prop: &str, _batch: &str, run_seed: u64) -> CaseOut {
     let (f, info) = evaluate(&sc);
     out.sample = Some(json!({
         "locks": sc.n_locks,
-        "threads": sc.threads.iter().map(|t| t.iter().map(|s| format!("lock{} in{} out{}", s.lock, s.inside, s.outside)).collect::<Vec<_>>()).collect::<Vec<_>>(),
+        "threads": sc.threads.iter().map(|t| t.iter().map(|s| format!("lock{} in{} out{}{}", s.lock, s.inside, s.outside, s.nested.map(|j| format!(" nested->lock{j}")).unwrap_or_default())).collect::<Vec<_>>()).collect::<Vec<_>>(),
         "schedule": sc.spec.describe(),
     }));
     if let Some(i) = info {
@@ -283,6 +321,11 @@ pub fn shrink_payload(payload: &Json, class: &str) -> (Json, Json) {
                     c.threads[t][s].inside = 1;
                     cands.push(c);
                 }
+                if cur.threads[t][s].nested.is_some() {
+                    let mut c = cur.clone();
+                    c.threads[t][s].nested = None;
+                    cands.push(c);
+                }
             }
         }
         if cur.n_locks > 1 {
@@ -291,6 +334,7 @@ pub fn shrink_payload(payload: &Json, class: &str) -> (Json, Json) {
             for t in c.threads.iter_mut() {
                 for s in t.iter_mut() {
                     s.lock = 0;
+                    s.nested = None;
                 }
             }
             cands.push(c);
@@ -322,7 +366,7 @@ pub fn known(_p: &str, _payload: &Json, _class: &str, _k: &[KnownFinding]) -> Op
 pub fn describe(_prop: &str) -> PropText {
     PropText {
         level: "exploration",
-        rule: "cases = 2..16 simulated threads x 1..6 read-modify-write closures each on 1..3 locks, with 0..3 scheduling points inside the critical section and 0..2 outside, each case under one seeded schedule (random / PCT depth 1-4 / URW); every closure ORs a distinct bit and returns what it read; oracle: reads sorted by popcount form the chain of all earlier updates, the final value holds every update, every call returns its own closure's value, the deadlock detector never fires. distinct = distinct (scenario shape, order in which tasks were scheduled); non-trivial = at least one context switch".into(),
+        rule: "cases = 2..16 simulated threads x 1..6 read-modify-write closures each on 1..3 locks (1 in 12: a table of 60..200 locks), with 0..3 scheduling points inside the critical section (1 in 12: 150-250, 1 in 48: 5500-7000) and 0..2 outside, 1 in 6 closures nesting a closure on a higher-indexed lock, each case under one seeded schedule (random / PCT depth 1-4 / URW); every closure ORs a distinct bit and returns what it read; oracle: reads sorted by popcount form the chain of all earlier updates, the final value holds every update, every call returns its own closure's value, the deadlock detector never fires. distinct = distinct (scenario shape, order in which tasks were scheduled); non-trivial = at least one context switch".into(),
         assumptions: vec![
             "the lock's source is the real file from /repo's working tree, re-read at every build; only the path prefixes std::sync:: / std::thread:: are replaced by shuttle's so that the scheduler controls the primitive (E3). Engine E2 runs the untouched crate on real std primitives under Miri's seeded scheduler".into(),
             "shuttle's Mutex models std::sync::Mutex (mutual exclusion, poisoning)".into(),
